@@ -34,6 +34,13 @@ impl<'a> SocketWrite<'a> {
     }
 
     pub fn done(&mut self) -> io::Result<usize> {
+        // the result of the system call is reported at the call itself: a twin of `write` that shadows it
+        #[cfg(may_verif)]
+        let write = |io: &IoData, buf: &[u8]| {
+            let r = write(io, buf);
+            crate::verif::sys(&io.io_flag, "sys.write", &r);
+            r
+        };
         loop {
             co_io_result(self.is_coroutine)?;
 
